@@ -139,7 +139,9 @@ def required_cells(tier):
             "name-without-paren", "recursion:direct", "recursion:mutual", "recursion:argument-borne", "variadic:0", "variadic:1",
             "variadic:many", "variadic:named", "nested-parens-in-argument", "form:define", "form:-D", "form:mixed",
             "-D:object", "-D:empty-value", "-D:valued", "-D:function-like", "via-#if", "via-#include", "re-evaluated-define", "deep-chain", "class:E", "class:R",
-            "layout:forced-include-defaults-a-command-line-macro", "layout:headers-outside-root", "layout:headers-inside-root"]
+            "layout:forced-include-defaults-a-command-line-macro", "layout:headers-outside-root", "layout:headers-inside-root",
+            "layout:multi-line-comment-inside-directive-followed-by-tokens", "layout:comment-line-ending-in-star", "definitions-as-implicit-options",
+            "definitions-as-implicit-options:gcc-compared"]
 
 
 # ------------------------------------------------------------- CBI driver --
@@ -679,6 +681,132 @@ def layout_class(ctx, work):
                         acc.violated({"input": case, "witness": dict(case, expected=sorted(want), observed=obs)}, cells=cells, cls="layout", nontrivial=case)
 
 
+COMMENT_ENDS = ["*", "**", "/", " x", "* ", "/*", "*/ /*", "***", "/ *", "x*"]
+
+
+def comment_layout_class(ctx, work):
+    """Definitions and conditions written with a block comment that spans several physical lines INSIDE the directive,
+    tokens following the comment on its last line; the comment's non-final lines end in every combination of `*`, `/`
+    and blanks, and the opener may be `/**`.  The comment is one blank for a preprocessor: the token sequence of the
+    directive must not change.  Oracle: gcc on the same file."""
+    acc = ctx.acc
+    os.makedirs(work, exist_ok=True)
+    idx = 0
+    for end in COMMENT_ENDS:
+        for opener in ("/*", "/**", "/* lanes"):
+            for mid in (0, 1, 2):
+                idx += 1
+                if not ctx.mine(idx):
+                    continue
+                def com(tag):
+                    lines_ = [f"{opener} {tag} {end}"] + [f"   more {end}" for _ in range(mid)] + [" * last */"]
+                    return "\n".join(lines_)
+                parts = ["cbi_m_c_0;",
+                         f"#define WIDTH 4 {com('a')} * 2",
+                         "#if WIDTH == 8", "cbi_m_c_1;", "#else", "cbi_m_c_2;", "#endif",
+                         f"#define SCALE(x) (x) {com('b')} + 1",
+                         "#if SCALE(2) == 3", "cbi_m_c_3;", "#else", "cbi_m_c_4;", "#endif",
+                         "#define TWICE(x) ((x) + (x))",
+                         f"#if TWICE(0) {com('c')} == 0", "cbi_m_c_5;", "#else", "cbi_m_c_6;", "#endif",
+                         f"#if 0 {com('d')} + 1", "cbi_m_c_7;", f"#elif SCALE(1) {com('e')} == 2 {com('f')} && WIDTH", "cbi_m_c_8;", "#else", "cbi_m_c_9;", "#endif",
+                         f"#undef WIDTH {com('g')}", "#ifdef WIDTH", "cbi_m_c_10;", "#else", "cbi_m_c_11;", "#endif", ""]
+                text = "\n".join(parts)
+                src = os.path.join(work, "comment_layout.c")
+                with open(src, "w") as f:
+                    f.write(text)
+                g = gcc.preprocess(src)
+                if not g["ok"]:
+                    acc.excluded("gcc-diagnostic", cls="comment-layout")
+                    continue
+                cells = ["layout:multi-line-comment-inside-directive-followed-by-tokens"]
+                if end.rstrip().endswith("*"):
+                    cells.append("layout:comment-line-ending-in-star")
+                case = {"text": text}
+                try:
+                    state, _ = cbi.run_find(work, {"p": [cbi.entry(src)]})
+                    used = cbi.used_lines(state, src, "p")
+                    lines = text.split("\n")
+                    got = {lines[ln - 1] for ln in used if lines[ln - 1].startswith("cbi_m_c_")}
+                    want = {m + ";" for m in g["markers"]}
+                    ok, obs = got == want, sorted(got)
+                except Exception as e:
+                    ok, obs, want = False, f"{type(e).__name__}: {e}", set()
+                if ok:
+                    acc.held(cells=cells, cls="comment-layout", nontrivial=case)
+                else:
+                    acc.violated({"input": case, "witness": dict(case, expected=sorted(want), observed=obs)}, cells=cells, cls="comment-layout", nontrivial=case)
+
+
+IMPLICIT_DEFS = [(["-DSCALE(x)=x + 1", "-DLIMIT=2 + 2"], ["SCALE(2) == 3", "LIMIT == 4", "LIMIT * 2 == 6", "SCALE(LIMIT) == 5"]),
+                 (["-D", "ADD(a, b)=a + b", "-DSPACED=  7  "], ["ADD(1, 2) * 2 == 5", "SPACED == 7", "ADD(SPACED, 1) == 8"]),
+                 (["-DSTR(x)=#x", "-DTXT=\"a b\"", "-DCH=' '"], ["defined(TXT) && defined(STR)", "CH == 32", "CH + 1 == 33"]),
+                 (["-DPICK(a, b, ...)=b __VA_ARGS__", "-DEMPTY="], ["PICK(1, 2, + 3) == 5", "defined(EMPTY)", "PICK(1, 2) == 2", "EMPTY + 1 == 1"]),
+                 (["-DQ='\"'", "-DSEMI=1 + 2", "-DBS='\\\\'"], ["Q == 34", "SEMI == 3", "BS == 92"]),
+                 (["-DNEG=- 1", "-DTERN=1 ? 2 : 3", "-DSH=1 << 4"], ["NEG + 1 == 0", "TERN == 2", "SH == 16", "(TERN) * SH == 32"])]
+
+
+def implicit_option_class(ctx, work):
+    """-D definitions given as IMPLICIT options of the compiler (the `options` key of <cwd>/.cbi/config), with blanks,
+    quotes and operators in the value: each list element is one argument, exactly as if it had been appended to the
+    command line.  Compared per macro with the same options given explicitly (token streams of the definitions), and
+    the truth of conditions using them with gcc given the same -D options."""
+    from codebasin import config
+    import json
+    acc = ctx.acc
+    os.makedirs(work, exist_ok=True)
+    old = os.getcwd()
+    try:
+        for k, (opts, uses) in enumerate(IMPLICIT_DEFS):
+            if not ctx.mine(k):
+                continue
+            shutil.rmtree(os.path.join(work, ".cbi"), ignore_errors=True)
+            os.makedirs(os.path.join(work, ".cbi"))
+            with open(os.path.join(work, ".cbi", "config"), "w") as f:
+                f.write("[compiler.mycc]\noptions = [%s]\n" % ", ".join(json.dumps(o) for o in opts))
+            os.chdir(work)
+            config._load_compilers()
+            problems = []
+            imp = [c for c in config.ArgumentParser("mycc").parse_args(["-c", "x.c"]) if c.pass_name == "default"][0]
+            exp = [c for c in config.ArgumentParser("gcc").parse_args(opts + ["-c", "x.c"]) if c.pass_name == "default"][0]
+            if list(imp.defines) != list(exp.defines):
+                problems.append({"kind": "implicit options give other definitions than the same options given explicitly",
+                                 "options": opts, "explicit": list(exp.defines), "implicit": list(imp.defines)})
+            # end to end against gcc
+            lines = []
+            for i, u in enumerate(uses):
+                lines += [f"#if {u}", f"cbi_m_i_{i};", "#else", f"cbi_m_j_{i};", "#endif"]
+            src = os.path.join(work, "implicit.c")
+            with open(src, "w") as f:
+                f.write("\n".join(lines) + "\n")
+            g = gcc.preprocess(src, extra=opts)
+            cells = ["definitions-as-implicit-options"]
+            if g["ok"] and not problems:
+                try:
+                    entry = {"file": src, "defines": list(imp.defines), "include_paths": [], "include_files": []}
+                    state, _ = cbi.run_find(work, {"p": [entry]})
+                    used = cbi.used_lines(state, src, "p")
+                    got = {lines[ln - 1] for ln in used if lines[ln - 1].startswith("cbi_m_")}
+                    want = {m + ";" for m in g["markers"]}
+                    if got != want:
+                        problems.append({"kind": "conditions using implicitly defined macros", "options": opts,
+                                         "missing": sorted(want - got), "extra": sorted(got - want)})
+                    cells.append("definitions-as-implicit-options:gcc-compared")
+                except Exception as e:
+                    problems.append({"kind": "exception", "observed": f"{type(e).__name__}: {e}"})
+            case = {"options": opts}
+            if problems:
+                acc.violated({"input": case, "witness": {"options": opts, "problems": problems}}, cells=cells, cls="implicit", nontrivial=case)
+            else:
+                acc.held(cells=cells, cls="implicit", nontrivial=case)
+    finally:
+        os.chdir(old)
+        shutil.rmtree(os.path.join(work, ".cbi"), ignore_errors=True)
+        try:
+            config._load_compilers()
+        except Exception:
+            pass
+
+
 REEVAL = [
     (["#define THIRD(a,b,c,...) c", "#define COUNT(...) THIRD(__VA_ARGS__, 2, 1, 0)"], ["COUNT(x, y) == 2", "COUNT(x) == 1"]),
     (["#define SUM(a, rest...) a + rest"], ["SUM(1, 2 + 40) == 43", "SUM(1, 2) == 3"]),
@@ -758,6 +886,8 @@ def run_shard(ctx):
         process_batch(ctx, drv, batch, work)
     arith_class(ctx, drv, work)
     layout_class(ctx, os.path.join(ctx.scratch, "layout"))
+    comment_layout_class(ctx, os.path.join(ctx.scratch, "comment-layout"))
+    implicit_option_class(ctx, os.path.join(ctx.scratch, "implicit"))
     include_class(ctx, work)
     reeval_class(ctx, work)
 
